@@ -5,24 +5,42 @@ import (
 	"reflect"
 )
 
-// VC is a vector clock: thread id -> logical time.
-type VC map[int]uint64
+// VC is a vector clock indexed by thread id.
+type VC []uint64
+
+func (v VC) get(i int) uint64 {
+	if i < len(v) {
+		return v[i]
+	}
+	return 0
+}
+
+func (v *VC) set(i int, x uint64) {
+	for len(*v) <= i {
+		*v = append(*v, 0)
+	}
+	(*v)[i] = x
+}
 
 // forkVC returns the clock a child thread starts with and ticks the parent.
 func (t *Thread) forkVC() VC {
-	t.ensureVC()
-	c := VC{}
-	for k, x := range t.VC {
-		c[k] = x
+	if s := Cur(); s == nil || !s.HB {
+		return nil
 	}
+	t.ensureVC()
+	c := make(VC, len(t.VC))
+	copy(c, t.VC)
 	t.VC[t.ID]++
 	return c
 }
 
-func (v VC) join(o VC) {
+func (v *VC) join(o VC) {
+	for len(*v) < len(o) {
+		*v = append(*v, 0)
+	}
 	for k, x := range o {
-		if x > v[k] {
-			v[k] = x
+		if x > (*v)[k] {
+			(*v)[k] = x
 		}
 	}
 }
@@ -32,22 +50,27 @@ type SyncObj struct{ vc VC }
 
 // Release publishes the calling thread's history on o (unlock, channel send, ...).
 func (o *SyncObj) Release() {
-	t := Self()
+	s := Cur()
+	if s == nil || !s.HB {
+		return
+	}
+	t := s.self()
 	if t == nil {
 		return
 	}
 	t.ensureVC()
-	if o.vc == nil {
-		o.vc = VC{}
-	}
 	o.vc.join(t.VC)
 	t.VC[t.ID]++
 }
 
 // Acquire makes everything released on o happen-before the calling thread's future (lock, receive).
 func (o *SyncObj) Acquire() {
-	t := Self()
-	if t == nil || o.vc == nil {
+	s := Cur()
+	if s == nil || !s.HB || o.vc == nil {
+		return
+	}
+	t := s.self()
+	if t == nil {
 		return
 	}
 	t.ensureVC()
@@ -55,11 +78,8 @@ func (o *SyncObj) Acquire() {
 }
 
 func (t *Thread) ensureVC() {
-	if t.VC == nil {
-		t.VC = VC{}
-	}
-	if t.VC[t.ID] == 0 {
-		t.VC[t.ID] = 1
+	if t.VC.get(t.ID) == 0 {
+		t.VC.set(t.ID, 1)
 	}
 }
 
@@ -95,7 +115,7 @@ func (r MapRace) String() string {
 // unsynchronised concurrent map access is a fatal, unrecoverable runtime error in a real process.
 func MapAccess(m any, write bool, site string) {
 	s := Cur()
-	if s == nil {
+	if s == nil || !s.HB {
 		return
 	}
 	t := s.self()
@@ -123,12 +143,12 @@ func MapAccess(m any, write bool, site string) {
 			s.MapRaces = append(s.MapRaces, MapRace{Site1: a.site, Write1: aw, Site2: site, Write2: write})
 		}
 	}
-	if ms.w != nil && ms.w.tid != t.ID && ms.w.clock > t.VC[ms.w.tid] {
+	if ms.w != nil && ms.w.tid != t.ID && ms.w.clock > t.VC.get(ms.w.tid) {
 		report(*ms.w, true)
 	}
 	if write {
 		for _, r := range ms.reads {
-			if r.tid != t.ID && r.clock > t.VC[r.tid] {
+			if r.tid != t.ID && r.clock > t.VC.get(r.tid) {
 				report(r, false)
 			}
 		}
@@ -136,5 +156,20 @@ func MapAccess(m any, write bool, site string) {
 		ms.reads = map[int]access{}
 	} else {
 		ms.reads[t.ID] = access{tid: t.ID, clock: t.VC[t.ID], site: site}
+	}
+}
+
+// ChanRelease / ChanAcquire are inserted around channel operations of instrumented code.  All
+// channels share one synchronisation object: an over-approximation of happens-before that can
+// only hide races from the map monitor, never invent one.
+func ChanRelease() {
+	if s := Cur(); s != nil {
+		s.chanHB.Release()
+	}
+}
+
+func ChanAcquire() {
+	if s := Cur(); s != nil {
+		s.chanHB.Acquire()
 	}
 }
